@@ -65,4 +65,30 @@ def longFrameRoundTrip (t : List Cell) (lossDetailCols : List String) : Except E
   (toLongRows t).bind fun tb =>
   (checkIndexColumns (longFrameDtypes t)).bind fun _ => fromLongRows tb lossDetailCols
 
+/-! ## the column lists `wide_data_frame_to_triangle` infers -/
+
+/-- `list(set(df.columns) - CORE_SET - set(given))` (a Python set: the order is unspecified; here column
+order — the reader's result does not depend on it: details are sorted, values keyed) -/
+def inferCols (cols given : List String) : List String :=
+  cols.filter fun c => !coreSet.contains c && !given.contains c
+
+/-- `wide_data_frame_to_triangle(df, field_cols, detail_cols, loss_detail_cols)` with `None` for a list the
+caller leaves out: at least one of the two must be given, given lists must be disjoint, the loss-detail
+columns must be detail columns (each refusal an `Exception`) -/
+def fromWideRowsInfer (tb : Table) (fieldCols detailCols : Option (List String)) (lossDetailCols : List String) :
+    Except Err (List Cell) :=
+  match fieldCols, detailCols with
+  | none, none => .error .other
+  | some f, some d =>
+    if f.any d.contains then .error .other
+    else if !(lossDetailCols.all d.contains) then .error .other
+    else fromWideRows tb f d lossDetailCols
+  | some f, none =>
+    let d := inferCols tb.cols f
+    if !(lossDetailCols.all d.contains) then .error .other else fromWideRows tb f d lossDetailCols
+  | none, some d =>
+    if !(lossDetailCols.all d.contains) then .error .other
+    else fromWideRows tb (inferCols tb.cols d) d lossDetailCols
+
+
 end Bermuda.Frame
